@@ -124,6 +124,13 @@ def pairs(ck, em, rng, count):
             fact("GmmML.weights", rel(m2.weights, m1.weights))
             l1, l2 = np.asarray(m1.log_likelihood(X)), np.asarray(m2.log_likelihood(Xt))
             fact("LogLikelihoodShift", rel(l2 + np.sum(np.log(np.abs(a))), l1, 1e-6))
+            # ---- a component AT the origin of the original features (all-zero means are a legitimate parameter); in the
+            # other units the same component sits at b
+            z1 = gmm(X, np.zeros_like(mu0), v0, sw=(False, True, True))
+            z2 = gmm(Xt, np.zeros_like(mu0) * a + b, v0 * a ** 2, sw=(False, True, True))
+            fact("GmmML.means_at_origin.means", rel((np.asarray(z2.means) - b) / a, z1.means))
+            fact("GmmML.means_at_origin.variances", rel(np.asarray(z2.variances) / a ** 2, z1.variances))
+            fact("GmmML.means_at_origin.weights", rel(z2.weights, z1.weights))
             # ---- the same with a variance floor that binds: one cluster is flat along one feature and the floor is a
             # user-set t in the original units, i.e. the per-feature floors a^2 t after the change of units, given as a
             # 1-D array of one floor per feature or as the full (C, D) array (GmmMStep.AffineEquivariant transforms
